@@ -14,7 +14,7 @@ use std::sync::atomic::{AtomicU64, Ordering};
 /// (deserialized and its error rendered) within `CPU_BOUND_S` seconds of CPU
 /// time. Fixed before measuring; the evidence reports the measured typical and
 /// worst cost so the >= 10^4 factor can be read off.
-pub const CPU_BOUND_S: f64 = 20.0;
+pub const CPU_BOUND_S: f64 = 60.0;
 pub const SMALL_INPUT: usize = 64 * 1024;
 /// CPU seconds after which a call on a larger input is given up (inconclusive).
 pub const BIG_STALL_S: f64 = 600.0;
@@ -29,6 +29,7 @@ pub struct Stats {
     pub small_cpu_ns_max: AtomicU64,
     pub small_calls: AtomicU64,
     pub big_cpu_ns_max: AtomicU64,
+    pub miette_reports: AtomicU64,
 }
 
 pub static STATS: Stats = Stats {
@@ -41,6 +42,7 @@ pub static STATS: Stats = Stats {
     small_cpu_ns_max: AtomicU64::new(0),
     small_calls: AtomicU64::new(0),
     big_cpu_ns_max: AtomicU64::new(0),
+    miette_reports: AtomicU64::new(0),
 };
 
 /// Set when the start-up probe found that reader entry points do not return on
@@ -96,8 +98,36 @@ impl MessageFormatter for FixedFormatter {
 }
 
 /// Render one error in every public way. Returns (bytes produced, kind).
-pub fn render_all(e: &Error) -> (usize, String) {
+///
+/// `source`: the exact text the error was produced from, when it is valid UTF-8
+/// and the case is one of those that also go through the miette conversion
+/// (`serde_saphyr::miette::to_miette_report` + graphical, narratable and JSON
+/// report handlers).
+pub fn render_all(e: &Error, source: Option<&str>) -> (usize, String) {
     let mut n = 0;
+    if let Some(src) = source {
+        let rep = serde_saphyr::miette::to_miette_report(e, src, "input.yaml");
+        n += format!("{rep:?}").len();
+        n += rep.to_string().len();
+        let mut out = String::new();
+        let _ = miette::GraphicalReportHandler::new_themed(miette::GraphicalTheme::unicode_nocolor()).with_width(60).render_report(&mut out, rep.as_ref());
+        let _ = miette::NarratableReportHandler::new().render_report(&mut out, rep.as_ref());
+        let _ = miette::JSONReportHandler::new().render_report(&mut out, rep.as_ref());
+        n += out.len();
+        let rep2 = serde_saphyr::miette::to_miette_report_with_formatter(e, src, "", &UserMessageFormatter);
+        n += format!("{rep2:?}").len();
+        STATS.miette_reports.fetch_add(1, Ordering::Relaxed);
+    }
+    let mut src_err: Option<&dyn std::error::Error> = std::error::Error::source(e);
+    let mut hops = 0;
+    while let Some(s) = src_err {
+        n += s.to_string().len();
+        src_err = s.source();
+        hops += 1;
+        if hops > 64 {
+            break;
+        }
+    }
     n += e.to_string().len();
     n += format!("{e:?}").len();
     n += e.render().len();
@@ -193,7 +223,20 @@ pub fn exercise(t: &Tgt, entry: Entry, opt: usize, input: &[u8]) -> CaseOut {
     exercise_raw(t, entry, opt, input)
 }
 
+/// Which cases also go through the miette conversion: the default vector
+/// and every second bit-encoded vector (a pure
+/// function of the case, so a replay renders exactly what the run rendered).
+pub fn with_miette(opt: usize) -> bool {
+    opt == 0 || (opt >= crate::targets::OPT_BITS_BASE && opt & 1 == 0)
+}
+
 fn exercise_raw(t: &Tgt, entry: Entry, opt: usize, input: &[u8]) -> CaseOut {
+    if entry == Entry::Defaults && opt != 0 {
+        // the option-less wrappers ignore the option vector: they exist once, under vector 0
+        STATS.not_applicable.fetch_add(1, Ordering::Relaxed);
+        return CaseOut { applicable: false, oks: 0, errs: 0, first_kind: None, cpu_s: 0.0, bad: None };
+    }
+    let miette_src = if with_miette(opt) && input.len() <= 1 << 20 { std::str::from_utf8(input).ok() } else { None };
     let c0 = cpu_now();
     stall::enter(t.name(), entry, opt, input, c0);
     let r = vcore::obs::catch(|| {
@@ -201,7 +244,7 @@ fn exercise_raw(t: &Tgt, entry: Entry, opt: usize, input: &[u8]) -> CaseOut {
         let mut bytes = 0usize;
         let mut first_kind = None;
         for e in &res.errs {
-            let (n, k) = render_all(e);
+            let (n, k) = render_all(e, miette_src);
             bytes += n;
             note_kind(&k);
             if first_kind.is_none() {
